@@ -949,11 +949,19 @@ def run(ctx):
     stage_scp_names(ctx)
     stage_scp_sink(ctx)
     stage_e2e(ctx)
+    try:
+        from .. import c13_copy
+        c13_copy.stage_copy(ctx)
+    except Exception as e:                                            # noqa
+        ctx.broke('stage:copy', repr(e))
 
 
 def replay(rp):
     core.setup_paths()
     kind = rp.get('kind')
+    if str(kind).startswith('copy_'):
+        from .. import c13_copy
+        return c13_copy.replay_copy(rp)
     if kind == 'map_path':
         root = rp['root'].encode('latin-1')
         p = rp['path'].encode('latin-1')
